@@ -1,19 +1,4 @@
 // replay-of: property=C07 obligation=C07.upd_known_v1_tombstone_epoch_wa crate=kani_core harness=c07upd::c07_upd_known_v1_tombstone_epoch_wa rustflags=--cfg facebook_akd_verif
-/// Test generated for harness `c07upd::c07_upd_known_v1_tombstone_epoch_wa` 
-///
-/// Check for `assertion`: "rust_dealloc must be called on an object whose allocated size matches its layout"
-///
-/// # Warning
-///
-/// Concrete playback tests combined with stubs or contracts is highly
-/// experimental, and subject to change.
-///
-/// The original harness has stubs which are not applied to this test.
-/// This may cause a mismatch of non-deterministic values if the stub
-/// creates any non-deterministic value.
-/// The execution path may also differ, which can be used to refine the stub
-/// logic.
-
 #[test]
 fn kani_concrete_playback_c07_upd_known_v1_tombstone_epoch_wa_11740881601823969459() {
     let concrete_vals: Vec<Vec<u8>> = vec![
